@@ -10,6 +10,8 @@ CONSTANTS
   Gen = FALSE
   LateFlag = FALSE
   NoRebind = FALSE
+  NoBreak = FALSE
+  NestedOnce = FALSE
   KeepScope = FALSE
   ExtractFirst = FALSE
 SPECIFICATION Spec
